@@ -24,6 +24,8 @@ DOCUMENTED_STATE = {
     "mLibrary": "Importer: the library of resolved models is the documented, user-visible state of the importer (library(), addModel(), ...)",
     "mImports": "Importer: the list of import sources added by the user (addImportSource(), importSource(i))",
     "mExternalVariables": "Analyser: external variables registered by the user (addExternalVariable(), ...)",
+    "mStandardUnits": "Analyser: memo of standard Units objects created on demand, keyed by the standard unit's name; the value is a function of the key "
+                      "(idempotent cache, benign by inspection - recorded as an assumption)",
     "mIssues": "Logger: the issue list itself (obligation 1 covers its reset)", "mErrors": "Logger index", "mWarnings": "Logger index", "mMessages": "Logger index",
 }
 # the implementation record of the service object of each TU (objects of other records are created per call)
@@ -55,7 +57,8 @@ def main(argv):
             scratch = {}
             for rid, q in tu.records.items():
                 rec = tu.by_id[rid]
-                if not q.endswith(SERVICE_IMPL.get(tuname, "Impl")) or not (cast.node_loc(rec)[0] or "").endswith(tuname) and "_p.h" not in (cast.node_loc(rec)[0] or ""):
+                # (an out-of-line definition of a nested class is dumped at namespace level: compare the last component)
+                if q.split("::")[-1] != SERVICE_IMPL.get(tuname, "Impl").split("::")[-1] or not (cast.node_loc(rec)[0] or "").endswith(tuname) and "_p.h" not in (cast.node_loc(rec)[0] or ""):
                     continue
                 for f in rec.get("inner", []):
                     if f.get("kind") == "FieldDecl" and re.match(r"m[A-Z]", f.get("name", "")):
